@@ -15,7 +15,8 @@ EXPLANATION = (
     "nesting in the parser and evaluator) must be cut by a depth bound or cycle check; (4) error handlers of spawned start-up tasks do not "
     "panic on request-derived errors (anchors of C05); (5) --test = runtime: the config_test return is preceded by every init/verify/"
     "set_rules call the serving path executes. serde's rejection of mistyped YAML is trusted."
-    ' P-config: library calls whose panic condition is a configured quantity (zero tokio interval period, zero channel capacity) are discharged only for positive constants, over the whole program.')
+    ' P-config: library calls whose panic condition is a configured quantity (zero tokio interval period, zero channel capacity) are discharged only for positive constants, over the whole program.'
+    ' TRIM: a loop that pops from a collection against a non-constant bound continues only while len > bound (it stops on the empty collection for every accepted bound).')
 RULE_TEXT = "instances = panic edges on the load path, dispatch arms, recursion cycles, init/verify calls before the --test exit"
 TRUSTED = ["serde_yaml rejects mistyped documents with an error", "nom does not panic on arbitrary input"]
 NOT_DECIDED = ["that serde rejects every mistyped YAML with an error (only that no local code panics on what serde hands over)"]
